@@ -2,6 +2,7 @@ package c14
 
 import (
 	"bytes"
+	"errors"
 	"fmt"
 	"math"
 	"runtime"
@@ -124,7 +125,7 @@ func checkPoly(c polyCase, o *kit.Obs) error {
 	} else {
 		o.Label("direction:cw")
 	}
-	return checkCover(r, tris2(out), coverOpts{earClip: true}, o)
+	return done(checkCover(r, tris2(out), coverOpts{earClip: true}, o))
 }
 
 // ---------------------------------------------------------------------------
@@ -141,7 +142,7 @@ func checkMesh(c meshCase, o *kit.Obs) error {
 		return err
 	}
 	out := model2d.TriangulateMesh(meshOf(r))
-	return checkCover(r, tris2(out), coverOpts{clockwise: true}, o)
+	return done(checkCover(r, tris2(out), coverOpts{clockwise: true}, o))
 }
 
 // ---------------------------------------------------------------------------
@@ -178,6 +179,14 @@ func checkProfile(r *region, z0, z1 float64, o *kit.Obs) error {
 		if nt == 3 {
 			ntop++
 		}
+	}
+	// the bottom cap is the TriangulateMesh output at z = minZ (checked first: it also detects the
+	// undecidable near-colinear band, in which a sliver may carry either orientation)
+	if err := checkCover(r, bottom, coverOpts{clockwise: true}, o); err != nil {
+		if errors.Is(err, errSkipped) {
+			return err
+		}
+		return fmt.Errorf("profile bottom cap: %w", err)
 	}
 	rep, err := kit.ClosedOrientedManifold(tris)
 	if err != nil {
@@ -225,10 +234,6 @@ func checkProfile(r *region, z0, z1 float64, o *kit.Obs) error {
 			return fmt.Errorf("profile (minZ > maxZ): |volume| %.15g, want %.15g", math.Abs(vol), r.area*math.Abs(h))
 		}
 	}
-	// the bottom cap is the TriangulateMesh output at z = minZ
-	if err := checkCover(r, bottom, coverOpts{clockwise: true}, o); err != nil {
-		return fmt.Errorf("profile bottom cap: %w", err)
-	}
 	return nil
 }
 
@@ -237,7 +242,7 @@ func checkProf(c profCase, o *kit.Obs) error {
 	if err != nil || !ok {
 		return err
 	}
-	return checkProfile(r, c.Z[0], c.Z[1], o)
+	return done(checkProfile(r, c.Z[0], c.Z[1], o))
 }
 
 // ---------------------------------------------------------------------------
@@ -304,7 +309,7 @@ func checkFaceTris(r *region, in3 []kit.V3, out []kit.Tri, o *kit.Obs) error {
 			t2[i][k] = r.pts[bi]
 		}
 	}
-	return checkCover(r, t2, coverOpts{earClip: true}, o)
+	return checkCover(r, t2, coverOpts{earClip: true}, o) // may be errSkipped: callers use done()
 }
 
 func checkFace(c faceCase, o *kit.Obs) error {
@@ -324,7 +329,7 @@ func checkFace(c faceCase, o *kit.Obs) error {
 	for i, t := range res {
 		out[i] = m3.Tri(t)
 	}
-	return checkFaceTris(r, in3, out, o)
+	return done(checkFaceTris(r, in3, out, o))
 }
 
 // ---------------------------------------------------------------------------
@@ -457,6 +462,9 @@ func checkOFF(c offCase, o *kit.Obs) error {
 	}
 	for i, f := range faces {
 		if err := checkFaceTris(f.r, f.in3, per[i], o); err != nil {
+			if errors.Is(err, errSkipped) {
+				return nil
+			}
 			return fmt.Errorf("OFF face %d: %w", i, err)
 		}
 	}
@@ -553,11 +561,14 @@ func checkBitmap(c bitmapCase, o *kit.Obs) error {
 		return fmt.Errorf("%w: outline area %g for %d cells at scale %g", kit.ErrInfra, r.area, cells, sc)
 	}
 	if err := checkCover(r, tris2(model2d.TriangulateMesh(meshOf(r))), coverOpts{clockwise: true}, o); err != nil {
+		if errors.Is(err, errSkipped) {
+			return nil
+		}
 		return fmt.Errorf("TriangulateMesh: %w", err)
 	}
 	if c.Z[0] != c.Z[1] {
 		if err := checkProfile(r, c.Z[0], c.Z[1], o); err != nil {
-			return err
+			return done(err)
 		}
 	}
 	if len(loops) == 1 && !skipKnownEar(r, o) {
@@ -567,6 +578,9 @@ func checkBitmap(c bitmapCase, o *kit.Obs) error {
 			in[i] = m3.C2(p)
 		}
 		if err := checkCover(r, tris2(model2d.Triangulate(in)), coverOpts{earClip: true}, o); err != nil {
+			if errors.Is(err, errSkipped) {
+				return nil
+			}
 			return fmt.Errorf("Triangulate: %w", err)
 		}
 	}
@@ -587,22 +601,22 @@ func genZ(t *rapid.T) [2]float64 {
 func TestProp(t *testing.T) {
 	runtime.GOMAXPROCS(2)
 	kit.Run(t, "C14", rule,
-		kit.Clause[polyCase]{Name: "C14/triangulate", Quick: 40000, Thorough: 600000, Gen: genPoly, Check: checkPoly},
-		kit.Clause[meshCase]{Name: "C14/triangulate-mesh", Quick: 30000, Thorough: 600000, Gen: func(t *rapid.T) meshCase {
+		kit.Clause[polyCase]{Name: "C14/triangulate", Quick: 30000, Thorough: 500000, Gen: genPoly, Check: checkPoly},
+		kit.Clause[meshCase]{Name: "C14/triangulate-mesh", Quick: 22000, Thorough: 450000, Gen: func(t *rapid.T) meshCase {
 			return meshCase{Shape: genRegion(t, "shape"), Place: genPlace(t, "place")}
 		}, Check: checkMesh},
-		kit.Clause[profCase]{Name: "C14/profile-mesh", Quick: 15000, Thorough: 250000, Gen: func(t *rapid.T) profCase {
+		kit.Clause[profCase]{Name: "C14/profile-mesh", Quick: 10000, Thorough: 200000, Gen: func(t *rapid.T) profCase {
 			return profCase{Shape: genRegion(t, "shape"), Place: genPlace(t, "place"), Z: genZ(t)}
 		}, Check: checkProf},
-		kit.Clause[faceCase]{Name: "C14/triangulate-face", Quick: 24000, Thorough: 400000, Gen: func(t *rapid.T) faceCase { return genFace(t, "face") }, Check: checkFace},
-		kit.Clause[offCase]{Name: "C14/read-off", Quick: 8000, Thorough: 120000, Gen: genOFF, Check: checkOFF},
+		kit.Clause[faceCase]{Name: "C14/triangulate-face", Quick: 18000, Thorough: 350000, Gen: func(t *rapid.T) faceCase { return genFace(t, "face") }, Check: checkFace},
+		kit.Clause[offCase]{Name: "C14/read-off", Quick: 6000, Thorough: 100000, Gen: genOFF, Check: checkOFF},
 		kit.Enum[bitmapCase]{Name: "C14/bitmap/enum-3x3", N: 512, At: func(i int) bitmapCase {
 			return bitmapCase{L: gen.Lattice2FromUint(3, 3, uint64(i)), Place: place{Kind: "id", Scale: 1}, Z: [2]float64{0, 1}}
 		}, Check: checkBitmap},
 		kit.Enum[bitmapCase]{Name: "C14/bitmap/enum-4x4", N: 65536, QuickStride: 4, At: func(i int) bitmapCase {
 			return bitmapCase{L: gen.Lattice2FromUint(4, 4, uint64(i)), Place: place{Kind: "id", Scale: 1}, Z: [2]float64{-0.5, 0.25}}
 		}, Check: checkBitmap},
-		kit.Clause[bitmapCase]{Name: "C14/bitmap/random", Quick: 15000, Thorough: 250000, Gen: func(t *rapid.T) bitmapCase {
+		kit.Clause[bitmapCase]{Name: "C14/bitmap/random", Quick: 10000, Thorough: 200000, Gen: func(t *rapid.T) bitmapCase {
 			return bitmapCase{L: gen.Lattice2Gen(t, 7, "bitmap"), Place: genPlace(t, "place"), Z: genZ(t)}
 		}, Check: checkBitmap},
 	)
